@@ -566,6 +566,9 @@ def check_radix_dtor(ctx, unit, rule="O6.radix-dtor"):
         # descending: tn = cn->links[idx] must be followed (same path, before leaving the loop) by links[idx] = null
         desc = [n for n in f.events() if n.kind == "BinaryOperator" and n.op == "=" and "links" in canon(n.children[1])
                 and path(n.children[0]) and len(path(n.children[0])) == 1]
+        # (the link may equally be taken into a freshly declared local)
+        desc += [n for n in f.events() if n.kind == "DeclStmt" and any(
+            "init" in d and (d.get("t") or "").rstrip().endswith("*") and "links" in canon(f.node(d["init"])) for d in n.get("decls", []))]
         for dsc in desc:
             cleared = False
             for n in f.events():
@@ -677,8 +680,22 @@ def check_iterator_present(ctx, unit, rule="E.iterator-present"):
             for r in f.events():
                 if r.kind == "ReturnStmt":
                     sites.append((r, "this._n", None, "return"))
+            # falling off the end of the function is an exit like any other
+            live = f.reachable_blocks()
+            for pb in f.blocks[f.exit].preds:
+                blk = f.blocks[pb]
+                if pb not in live or f.exit not in blk.live_succs():
+                    continue        # e.g. the continuation block of a folded bool helper whose every return was threaded past it
+                ns = blk.nodes()
+                if ns and not any(x.kind == "ReturnStmt" for x in ns) and blk.termkind != "ReturnStmt":
+                    sites.append((ns[-1], "this._n", None, "end of function"))
         for k, (at, ncanon, inode, what) in enumerate(sites):
-            facts = flow.facts_at(f, at.id)
+            facts = list(flow.facts_at(f, at.id))
+            if what == "end of function":
+                # ... reached over the edge on which the block's own condition came out one way (`} while(_n);`)
+                for succ, cond, truth in f.branch_edges(f.positions()[at.id][0]):
+                    if succ == f.exit and cond is not None and truth is not None:
+                        facts.append((cond, truth))
             ok, why = False, "no test of the mask bit for this index (and no non-zero mask behind a trailing-zero count) dominates it"
             for cond, truth in facts:
                 cs = cond.strip()
